@@ -814,7 +814,14 @@ Definition cli_moves (sc : scn) (p : pstate) : list pstate :=
     [{| p_c := (match peer c with POpen => set_peer PHalf c | _ => c end); p_g := g; p_inq := p_inq p; p_outq := p_outq p; p_got := p_got p; p_script := rest |}]
   | CShutdown :: rest =>
     if panicked c then [] else
-    [{| p_c := set_rctx true c; p_g := gupd LShutdown MResp g; p_inq := p_inq p; p_outq := p_outq p; p_got := p_got p; p_script := rest |}]
+    {| p_c := set_rctx true c; p_g := gupd LShutdown MResp g; p_inq := p_inq p; p_outq := p_outq p; p_got := p_got p; p_script := rest |}
+    :: (* Serve has accepted the connection but not yet registered it: it is refused (closed, handleConn never runs) *)
+       (match hp c with
+        | H_Tls | H_NewConn =>
+          [{| p_c := set_lclosed true (set_hp H_Done (set_rctx true c)); p_g := gupd LShutdown MResp g;
+              p_inq := p_inq p; p_outq := p_outq p; p_got := p_got p; p_script := rest |}]
+        | _ => []
+        end)
   | CTimer :: rest =>
     if panicked c then [] else
     [{| p_c := set_root true c; p_g := gupd LRootCancel MResp g; p_inq := p_inq p; p_outq := p_outq p; p_got := p_got p; p_script := rest |}]
